@@ -23,11 +23,13 @@ META = {
     "text": "For EVERY layout (header ints, MJMODEL_SIZES, struct blobs, MJMODEL_POINTERS with element size/nr/nc, "
             "MJMODEL_REFERENCES) and every model value consistent with its sizes: load(save m) = m (all sizes, blobs, "
             "arrays); mj_sizeModel = length of the image; every strict prefix of an image is rejected with a warning; an "
-            "accepted model has every reference of the table within [-1, target) incl. adr+num (exact integers); reads "
-            "stay inside the caller's buffer whenever the byte counts computed from the file's sizes do not wrap "
-            "(_partial: the tree has one pointer, names_map, whose dimension escapes mj_makeModel's checks - proved by "
-            "kernel evaluation on the generated layout and reproduced on the real loader); the 84 positional arguments "
-            "of mj_makeModel are sizes[0..84) in order. The generated layout is proved well-formed, its reference rows "
+            "accepted model has every reference of the table within [-1, target) incl. adr+num (exact integers); for "
+            "layouts whose pointers are all dimensioned by checked mj_makeModel parameters the loader's copying is memory "
+            "safe on EVERY buffer (no read past the buffer, no write past an allocated array); the tree's layout has "
+            "exactly one pointer (names_map) outside that class (kernel-evaluated on the generated layout), and for it the "
+            "exact statement is proved: copying is safe on every buffer whose nnames_map field equals the value "
+            "mj_makeModel computes - nnames_map itself is unchecked (witness theorems; reproduced on the real loader as "
+            "heap overflow / negative memcpy length); the 84 positional arguments of mj_makeModel are sizes[0..84) in order. The generated layout is proved well-formed, its reference rows "
             "are proved to span exactly their arrays. The hand-modelled parts (load/save/makeModel/validate bodies, "
             "special logic) are tied by a token-exact template match in the translator and by exact agreement of "
             "result, warning text and allocation size on every differential op.",
@@ -43,7 +45,9 @@ THEOREMS = [
     "MjProof.C31.load_save_id",
     "MjProof.C31.size_eq_save_length",
     "MjProof.C31.truncation_rejected",
+    "MjProof.C31.load_reads_within_buffer",
     "MjProof.C31.load_reads_within_buffer_partial",
+    "MjProof.C31.load_copy_safe_of_rows",
     "MjProof.C31.validate_sound",
     "MjProof.C31.load_ok_refs_in_bounds",
     "MjProof.C31.toy_consistent",
@@ -53,6 +57,9 @@ THEOREMS = [
     "MjProof.C31Gen.makeModel_args_match_sizes",
     "MjProof.C31Gen.generated_unchecked_dims",
     "MjProof.C31Gen.generated_refs_shape",
+    "MjProof.C31Gen.generated_nc_checked",
+    "MjProof.C31Gen.load_copy_safe",
+    "MjProof.Mjb.specialOf_noCopy",
     "MjProof.C31Gen.load_save_id",
     "MjProof.C31Gen.truncation_rejected",
     "MjProof.C31Gen.validate_sound",
